@@ -74,11 +74,21 @@ func load() {
 // scriptedRand makes crypto/rand deliver the recorded bytes (confounders, generated keys).
 type scriptedRand struct{}
 
+var randLog []byte
+
 func (scriptedRand) Read(p []byte) (int, error) {
 	for i := range p {
 		p[i] = Byte()
 	}
+	randLog = append(randLog, p...)
 	return len(p), nil
+}
+
+// RandLog returns (and clears) the bytes that crypto/rand has delivered since the last call.
+func RandLog() []byte {
+	l := randLog
+	randLog = nil
+	return l
 }
 
 func pop() *big.Int {
@@ -131,11 +141,16 @@ func Assume(b bool) {
 		panic(Skip{})
 	}
 }
+// Assert records a failed assertion and continues (like the symbolic execution, which reports the
+// obligation and continues on the side where it holds), so that one replay run confirms every
+// assertion that fails for the recorded inputs.
 func Assert(label string, b bool) {
 	if !b {
-		panic(Failure{label})
+		failed = append(failed, label)
 	}
 }
+
+var failed []string
 func Reach(label string) {}
 
 // ---- specification-side primitives (uninterpreted under gosym, real natively) -------------------
@@ -229,7 +244,11 @@ func RunReplay(t *testing.T, hs map[string]func()) {
 		e := recover()
 		switch x := e.(type) {
 		case nil:
-			fmt.Printf("ZZREPLAY result=pass alloc=%d\n", alloc)
+			if len(failed) > 0 {
+				fmt.Printf("ZZREPLAY result=assert label=%q alloc=%d\n", strings.Join(failed, ","), alloc)
+			} else {
+				fmt.Printf("ZZREPLAY result=pass alloc=%d\n", alloc)
+			}
 		case Skip:
 			fmt.Printf("ZZREPLAY result=assume-failed alloc=%d\n", alloc)
 		case Failure:
@@ -249,7 +268,7 @@ func RunReplay(t *testing.T, hs map[string]func()) {
 					break
 				}
 			}
-			fmt.Printf("ZZREPLAY result=panic msg=%q where=%q alloc=%d\n", msg, strings.Join(where, " <- "), alloc)
+			fmt.Printf("ZZREPLAY result=panic msg=%q where=%q label=%q alloc=%d\n", msg, strings.Join(where, " <- "), strings.Join(failed, ","), alloc)
 		}
 	}()
 	h()
@@ -296,4 +315,75 @@ func IteInt(c bool, a, b int) int {
 		return a
 	}
 	return b
+}
+
+// Nfold is an independent implementation of RFC 3961 5.1 n-fold (transcribed from the RFC's
+// description in the style of the MIT reference: rotate-by-13 copies added with end-around carry).
+func Nfold(in []byte, nbits int) []byte {
+	inb, outb := len(in), nbits/8
+	a, b := outb, inb
+	for b != 0 {
+		a, b = b, a%b
+	}
+	lcm := outb * inb / a
+	out := make([]byte, outb)
+	acc := 0
+	for i := lcm - 1; i >= 0; i-- {
+		// the most significant bit of the input that lands in this output byte
+		msbit := (((inb << 3) - 1) + (((inb << 3) + 13) * (i / inb)) + ((inb - (i % inb)) << 3)) % (inb << 3)
+		acc += (((int(in[((inb-1)-(msbit>>3))%inb]) << 8) | int(in[(inb-(msbit>>3))%inb])) >> ((uint(msbit) & 7) + 1)) & 0xff
+		acc += int(out[i%outb])
+		out[i%outb] = byte(acc & 0xff)
+		acc >>= 8
+	}
+	if acc != 0 {
+		for i := outb - 1; i >= 0; i-- {
+			acc += int(out[i])
+			out[i] = byte(acc & 0xff)
+			acc >>= 8
+		}
+	}
+	return out
+}
+
+// DES3RandomToKey is an independent implementation of RFC 3961 6.3.1 (des3 random-to-key): each 7
+// bytes are spread over 8 bytes with odd parity in the low bit, weak and semi-weak DES keys are
+// corrected by xor 0xF0 into the last byte.
+func DES3RandomToKey(r []byte) []byte {
+	var out []byte
+	for g := 0; g < 3; g++ {
+		b := r[7*g : 7*g+7]
+		k := make([]byte, 8)
+		for i := 0; i < 7; i++ {
+			k[i] = b[i] &^ 1
+			k[7] |= (b[i] & 1) << uint(i+1)
+		}
+		for i := range k {
+			ones := 0
+			for j := 1; j < 8; j++ {
+				ones += int(k[i]>>uint(j)) & 1
+			}
+			if ones%2 == 0 {
+				k[i] |= 1
+			} else {
+				k[i] &^= 1
+			}
+		}
+		for _, w := range desWeak {
+			if string(k) == string(w[:]) {
+				k[7] ^= 0xF0
+				break
+			}
+		}
+		out = append(out, k...)
+	}
+	return out
+}
+
+// FIPS 74 / RFC 3961 6.2: the 4 weak and 12 semi-weak DES keys
+var desWeak = [][8]byte{
+	{0x01, 0x01, 0x01, 0x01, 0x01, 0x01, 0x01, 0x01}, {0xFE, 0xFE, 0xFE, 0xFE, 0xFE, 0xFE, 0xFE, 0xFE}, {0x1F, 0x1F, 0x1F, 0x1F, 0x0E, 0x0E, 0x0E, 0x0E}, {0xE0, 0xE0, 0xE0, 0xE0, 0xF1, 0xF1, 0xF1, 0xF1},
+	{0x01, 0xFE, 0x01, 0xFE, 0x01, 0xFE, 0x01, 0xFE}, {0xFE, 0x01, 0xFE, 0x01, 0xFE, 0x01, 0xFE, 0x01}, {0x1F, 0xE0, 0x1F, 0xE0, 0x0E, 0xF1, 0x0E, 0xF1}, {0xE0, 0x1F, 0xE0, 0x1F, 0xF1, 0x0E, 0xF1, 0x0E},
+	{0x01, 0xE0, 0x01, 0xE0, 0x01, 0xF1, 0x01, 0xF1}, {0xE0, 0x01, 0xE0, 0x01, 0xF1, 0x01, 0xF1, 0x01}, {0x1F, 0xFE, 0x1F, 0xFE, 0x0E, 0xFE, 0x0E, 0xFE}, {0xFE, 0x1F, 0xFE, 0x1F, 0xFE, 0x0E, 0xFE, 0x0E},
+	{0x01, 0x1F, 0x01, 0x1F, 0x01, 0x0E, 0x01, 0x0E}, {0x1F, 0x01, 0x1F, 0x01, 0x0E, 0x01, 0x0E, 0x01}, {0xE0, 0xFE, 0xE0, 0xFE, 0xF1, 0xFE, 0xF1, 0xFE}, {0xFE, 0xE0, 0xFE, 0xE0, 0xFE, 0xF1, 0xFE, 0xF1},
 }
